@@ -366,6 +366,18 @@ def _run_drop(spec, rec, res):
     live = []
     worst = 0
     for i in range(spec['count']):
+        if i % 5 == 2:
+            # a Script whose first and only helper request raises inside the (surviving) helper,
+            # and which is then dropped: its helper-side state must be released as well
+            st.update(n=0, k=0, phase='raise', crashes=1, delivered=0, pids=[])
+            s = jedi.Script('import math\nmath.sq')
+            try:
+                s.complete(2, 7)
+            except Exception:
+                rec.ev('c14:scripts_with_only_failing_requests')
+            st.update(k=None, crashes=0)
+            s = None
+            continue
         s = jedi.Script('import math\nmath.sq\nx = 1 + %d\nx.re' % i)
         s.complete(2, 7)
         s.complete(4, 4)
